@@ -177,26 +177,28 @@ class Explorer:
         b = self.observe(new)
         L = np.asarray(L, dtype=float)
         aL = np.abs(L)
+        allpred = {name: apply_L(a[name], L, axes) for name, (fn, axes) in self.iq.items() if name in a}
+        allamp = {name: apply_L(np.abs(a[name]), aL, axes) for name, (fn, axes) in self.iq.items() if name in a}
         for name, (fn, axes) in self.iq.items():
             if name not in a or name not in b:
                 continue
-            pred = apply_L(a[name], L, axes)
+            pred = allpred[name]
+            amp = allamp[name]
             if extra and name in extra:
-                pred = extra[name](pred)
+                pred = extra[name](pred, allpred)
+                amp = extra[name + "#abs"](amp, allamp) if name + "#abs" in extra else np.abs(pred) + amp * 0 if amp.shape == pred.shape else np.abs(pred)
             if name.startswith("eri"):
                 # Schwarz scale of the predicted tensor
                 d = np.sqrt(np.abs(np.einsum("abab->ab", pred if name == "eri_chemist" else pred.transpose(0, 2, 1, 3))))
                 sc = d[:, :, None, None] * d[None, None, :, :]
                 if name == "eri_physicist":
                     sc = sc.transpose(0, 2, 1, 3)
-                amp = apply_L(np.abs(a[name]), aL, axes)
                 self.o.cmp("%s: %s" % (label, name), b[name], pred, self.eri_tol, sc + 1e-9 * amp, key=name)
             else:
                 # condition scale: the law applied to absolute values (no benefit from cancellation)
-                amp = apply_L(np.abs(a[name]), aL, axes)
-                if extra and name + "#abs" in extra:
-                    amp = extra[name + "#abs"](amp)
                 sc = amp + 1e-3 * float(np.max(np.abs(pred)) if pred.size else 0.0)
+                if extra and name + "#scale" in extra:
+                    sc = sc + extra[name + "#scale"](allpred)
                 self.o.cmp("%s: %s" % (label, name), b[name], pred, self.tol, sc, key=name)
         if self.dq and (self.edges % self.dens_every == 0):
             n_new = new.nfun()
@@ -212,7 +214,7 @@ class Explorer:
                 va = fn(go, old.env, old.T, gam_old)
                 self.o.call(2)
                 if extra and name in extra:
-                    va = extra[name](va)
+                    va = extra[name](va, None)
                 sc = float(np.max(np.abs(va))) + 1e-300
                 self.o.cmp("%s: %s" % (label, name), vb, va, max(self.tol, 1e-9), sc, key=name)
 
